@@ -2,6 +2,7 @@ package dataframe
 
 import (
 	"fmt"
+	"math"
 	"os"
 
 	"github.com/wcharczuk/go-chart/v2"
@@ -63,8 +64,22 @@ func (df *DataFrame) BarPlot(columnName, outputFile string) error {
 		if !ok {
 			return fmt.Errorf("non-numeric data found in column '%s'", columnName)
 		}
+		if math.IsNaN(val) || math.IsInf(val, 0) {
+			return fmt.Errorf("non-finite value %v found in column '%s' (row %d)", val, columnName, i)
+		}
 		values[i] = val
 		labels[i] = fmt.Sprintf("%v", i)
+	}
+
+	// the chart library never returns when the value range is not a finite number
+	if len(values) > 0 {
+		lo, hi := values[0], values[0]
+		for _, v := range values {
+			lo, hi = math.Min(lo, v), math.Max(hi, v)
+		}
+		if math.IsInf(hi-lo, 0) {
+			return fmt.Errorf("value range of column '%s' is too large to plot", columnName)
+		}
 	}
 
 	graph := chart.BarChart{
